@@ -80,6 +80,43 @@ func muxRegReset(pinP int) {
 	muxReg.mu.Unlock()
 }
 
+// richIdent makes yield identities at the queue hand-off sites (which receive no context) carry the goroutine's
+// role or task and the connection the queue belongs to. Needed when one step can wake queue users of several
+// connections at once (cluster refresh asks up to four nodes); off by default so that the identities - and with them
+// the event-log hashes and committed replay plans - of the single-connection scenarios do not change.
+var richIdent atomic.Bool
+
+// queueOwner finds the connection whose pipe owns a flow buffer or a ring slot (registered multiplexers only).
+func queueOwner(obj any) string {
+	muxReg.mu.Lock()
+	defer muxReg.mu.Unlock()
+	for _, ms := range muxReg.byDst {
+		for _, m := range ms {
+			for i := range m.muxwires {
+				p, ok := m.muxwires[i].wire.Load().(*pipe)
+				if !ok || p == nil {
+					continue
+				}
+				switch o := obj.(type) {
+				case *flowBuffer:
+					if fb, ok := p.queue.(*flowBuffer); ok && fb == o {
+						return connIDOf(p)
+					}
+				case *node:
+					if r, ok := p.queue.(*ring); ok && len(r.store) > 0 {
+						for k := range r.store {
+							if &r.store[k] == o {
+								return connIDOf(p)
+							}
+						}
+					}
+				}
+			}
+		}
+	}
+	return ""
+}
+
 func muxRegName(w *muxwire) string {
 	muxReg.mu.Lock()
 	defer muxReg.mu.Unlock()
@@ -263,7 +300,9 @@ func connIDOf(p *pipe) string {
 
 func yieldIdentity(ctx context.Context, site string, obj any, cmd []string) string {
 	who := sched.TaskID(ctx)
-	if who == "" {
+	if who == "" || (!richIdent.Load() && (strings.HasPrefix(site, "fb.") || strings.HasPrefix(site, "ring."))) {
+		// (the queue hand-off seams carry the caller's context since hook commit c97e4fd; without richIdent they keep
+		// their historical identity so that event-log hashes and committed replay plans stay valid)
 		who = "bg"
 	}
 	where := ""
@@ -277,7 +316,7 @@ func yieldIdentity(ctx context.Context, site string, obj any, cmd []string) stri
 		if f := muxwireName.Load(); f != nil {
 			where = (*f)(o)
 		}
-		if where == "wire-new" || where == "wire?" {
+		if richIdent.Load() && (where == "wire-new" || where == "wire?") {
 			// clients other than singleClient (cluster, sentinel, standalone): name the wire through the registry
 			// of multiplexers, "<dst>/<k>#<i>" = wire i of the k-th multiplexer created for dst in this run
 			if n := muxRegName(o); n != "" {
@@ -288,9 +327,20 @@ func yieldIdentity(ctx context.Context, site string, obj any, cmd []string) stri
 		where = "pool"
 	case *node:
 		where = "slot"
+		if richIdent.Load() {
+			if c := queueOwner(o); c != "" {
+				where = "slot@" + c
+			}
+		}
 	case *flowBuffer:
 		where = "fb"
+		if richIdent.Load() {
+			if c := queueOwner(o); c != "" {
+				where = "fb@" + c
+			}
+		}
 	}
+
 	c := ""
 	if len(cmd) > 0 {
 		n := len(cmd)
@@ -353,6 +403,7 @@ func VerifSetSim(s *sched.Sim, seed uint64) {
 		randState.on.Store(true)
 		queueTypeFromEnv = ""
 		muxRegReset(0)
+		richIdent.Store(false)
 	}
 	curSim.Store(s)
 }
@@ -376,6 +427,9 @@ func VerifPinAllParallelism(n int) {
 	muxReg.pinP = n
 	muxReg.mu.Unlock()
 }
+
+// VerifRichIdentities turns on connection- and goroutine-qualified identities at the queue hand-off yield sites.
+func VerifRichIdentities(on bool) { richIdent.Store(on) }
 
 // VerifCoarseExtra parks additional yield sites (nil = default set).
 func VerifCoarseExtra(m map[string]bool) {
